@@ -75,6 +75,7 @@ type exec struct {
 	assertSites map[string]int
 	pathNotes []string
 	pathViolated bool
+	pending      []pendingAssert
 	preempt  int // remaining pre-emptions on this path
 	preemptBound int
 	samples  []map[string]uint64
@@ -349,6 +350,7 @@ func (ex *exec) fresh(label string, w int) value {
 }
 
 func (ex *exec) assume(c value) {
+	ex.flushAsserts()
 	switch c := c.(type) {
 	case bool:
 		if !c {
@@ -430,17 +432,59 @@ func (ex *exec) assert(c value, msg string, where string) {
 			return
 		}
 		ex.stats.AssertsSym++
-		ex.syncSolverTo(ex.pos)
+		ex.pending = append(ex.pending, pendingAssert{c, msg, where})
+	}
+}
+
+type pendingAssert struct {
+	c          *Term
+	msg, where string
+}
+
+// flushAsserts discharges the assertions collected since the last flush: one query for
+// their conjunction, individual queries only if that one is satisfiable.
+func (ex *exec) flushAsserts() {
+	if len(ex.pending) == 0 || ex.concrete != nil {
+		ex.pending = ex.pending[:0]
+		return
+	}
+	pend := ex.pending
+	ex.pending = nil
+	if ex.pos < len(ex.trail) {
+		// replaying a recorded prefix: an earlier path flushed the same assertions at this very
+		// point; consume the assumptions it recorded for failed ones
+		for ex.pos < len(ex.trail) && ex.trail[ex.pos].why == "assert-assume" {
+			ex.pos++
+			ex.syncSolverTo(ex.pos)
+		}
+		return
+	}
+	ex.syncSolverTo(ex.pos)
+	all := tTrue
+	for _, a := range pend {
+		all = mkBAnd(all, a.c)
+	}
+	if all == tTrue {
+		return
+	}
+	ex.solver.Push()
+	ex.solver.Assert(mkBNot(all))
+	r := ex.checkSat()
+	ex.solver.Pop(1)
+	if r == Unsat {
+		return
+	}
+	for _, a := range pend {
 		ex.solver.Push()
-		ex.solver.Assert(mkBNot(c))
+		ex.solver.Assert(mkBNot(a.c))
 		r := ex.checkSat()
 		if r == Sat {
-			ex.recordViolation("assert", msg, where, true)
+			ex.recordViolation("assert", a.msg, a.where, true)
 		}
 		ex.solver.Pop(1)
-		// continue under the assumption that the assertion holds
 		if r != Unsat {
-			if !ex.decideAssume(c) {
+			// continue under the assumption that the assertion holds
+			if !ex.decideAssume(a.c) {
 				panic(abortRun{"done", "assertion can never hold here"})
 			}
 		}
@@ -449,12 +493,6 @@ func (ex *exec) assert(c value, msg string, where string) {
 
 // decideAssume adds c to the path condition without forking (used after a failed assertion).
 func (ex *exec) decideAssume(c *Term) bool {
-	if ex.pos < len(ex.trail) {
-		d := &ex.trail[ex.pos]
-		ex.pos++
-		ex.syncSolverTo(ex.pos)
-		return d.choice == 0
-	}
 	ex.syncSolverTo(ex.pos)
 	ex.solver.Push()
 	ex.solver.Assert(c)
@@ -499,6 +537,19 @@ func (ex *exec) explore(run func() runResult) {
 		ex.pathViolated = false
 		ex.stats.Paths++
 		res := run()
+		if res.kind == "ok" || res.kind == "done" || res.kind == "panic" || res.kind == "deadlock" {
+			func() {
+				defer func() {
+					if p := recover(); p != nil {
+						if _, ok := p.(abortRun); !ok {
+							panic(p)
+						}
+					}
+				}()
+				ex.flushAsserts()
+			}()
+		}
+		ex.pending = nil
 		rollback()
 		if len(ex.trail) > ex.stats.MaxTrail {
 			ex.stats.MaxTrail = len(ex.trail)
